@@ -3,7 +3,7 @@
    Line format:  <driver> <caseid> <token> ...   Output:  <caseid> <token> ... *)
 let packages : (string -> string list -> string option) list =
   [ Drv_codec.dispatch; Drv_padding.dispatch; Drv_parsers.dispatch; Drv_http.dispatch;
-    Drv_timed.dispatch; Drv_session.dispatch; Drv_conc.dispatch; Drv_misc.dispatch; Drv_hostile.dispatch ]
+    Drv_timed.dispatch; Drv_session.dispatch; Drv_tunnel.dispatch; Drv_conc.dispatch; Drv_misc.dispatch; Drv_hostile.dispatch ]
 
 let dispatch drv args =
   let rec go = function
